@@ -454,8 +454,9 @@ func driveBlock(w *ev.Writer, name string, data []byte, stride, offset int, sh, 
 		}
 		*n++
 	}
-	pick := func(i int) bool { return stride <= 1 || (i+offset)%stride == 0 }
+	pick := func(i int) bool { return stride <= 1 || (i+2*offset)%stride == 0 }
 	seen := map[string]bool{}
+	ntx := 0
 	// ---- account_blocks: (account, lt) -> ^Transaction
 	abA, abB, abR := a.typed.Extra.AccountBlocks.Values(), b.typed.Extra.AccountBlocks.Values(), r.acc.Values()
 	if len(abA) != len(abB) || len(abA) != len(abR) {
@@ -466,11 +467,12 @@ func driveBlock(w *ev.Writer, name string, data []byte, stride, offset int, sh, 
 		if len(ta) != len(tb) || len(ta) != len(tr) || abA[i].AccountAddr != abR[i].AccountAddr {
 			return fmt.Errorf("%s: account block %d does not line up", name, i)
 		}
-		if !pick(i) {
-			continue
-		}
 		for j := range ta {
 			j := j
+			ntx++
+			if !pick(ntx * 2) { // the sample is taken over transactions (twice as dense as over descriptor entries)
+				continue
+			}
 			emit("account_blocks", hx(ta[j].Value.AccountAddr)+":"+strconv.FormatUint(ta[j].Value.Lt, 10), func() ev.M {
 				return txEvent(name, "account_blocks", tr[j].C, &ta[j].Value, &tb[j].Value, true)
 			})
